@@ -7,6 +7,7 @@ import (
 
 	corev1 "k8s.io/api/core/v1"
 	metav1 "k8s.io/apimachinery/pkg/apis/meta/v1"
+	"k8s.io/kube-state-metrics/v2/pkg/metric"
 	generator "k8s.io/kube-state-metrics/v2/pkg/metric_generator"
 
 	v1 "github.com/DataDog/extendeddaemonset/api/v1alpha1"
@@ -174,7 +175,6 @@ func (e *C20) one(ctx *core.Ctx) {
 		"eds_created":                           float64(kit.T0.Unix()),
 		"eds_labels":                            1,
 	}
-	e.judgeFamilies(ctx, "eds", edsctl.VerifMetricFamilies(), eds, edsWant, attrs, checkInfo)
 
 	// --- replica-set families
 	ers := &v1.ExtendedDaemonSetReplicaSet{ObjectMeta: meta}
@@ -190,24 +190,68 @@ func (e *C20) one(ctx *core.Ctx) {
 		"ers_status_available": float64(ers.Status.Available), "ers_status_ignored_unresponsive_nodes": float64(ers.Status.IgnoredUnresponsiveNodes),
 		"ers_status_canary_failed": b2f(failed), "ers_created": float64(kit.T0.Unix()), "ers_labels": 1,
 	}
-	e.judgeFamilies(ctx, "ers", ersctl.VerifMetricFamilies(), ers, ersWant, attrs, checkInfo)
+	// Like the metrics store, generate every family of both objects first (in declaration order)
+	// and look at the series afterwards: a series must not change because a later one was built.
+	edsFams, ersFams := edsctl.VerifMetricFamilies(), ersctl.VerifMetricFamilies()
+	edsGen := e.generateAll(ctx, edsFams, eds)
+	e.judgeFamilies(ctx, "eds", edsFams, edsGen, eds, edsWant, attrs, checkInfo)
+	ersGen := e.generateAll(ctx, ersFams, ers)
+	e.judgeFamilies(ctx, "ers", ersFams, ersGen, ers, ersWant, attrs, checkInfo)
+	// the store keeps the series of earlier objects while later ones are generated: the series of a
+	// second, differently labelled object must not disturb those of the first
+	other := &v1.ExtendedDaemonSet{ObjectMeta: metav1.ObjectMeta{Name: "other", Namespace: "ns", Labels: map[string]string{"zz.other/label": "o1", "zz-second": "o2"}}}
+	other.Status.Canary = &v1.ExtendedDaemonSetStatusCanary{ReplicaSet: "other-x"}
+	_ = e.generateAll(ctx, edsFams, other)
+	attrs2 := map[string]string{"specialKeys": attrs["specialKeys"], "colliding": attrs["colliding"], "after": "another-object"}
+	e.judgeFamilies(ctx, "eds", edsFams, edsGen, eds, edsWant, attrs2, func(w string, k, v []string, skip int) {
+		old := attrs
+		attrs = attrs2
+		checkInfo(w, k, v, skip)
+		attrs = old
+	})
+	e.judgeFamilies(ctx, "ers", ersFams, ersGen, ers, ersWant, attrs2, func(w string, k, v []string, skip int) {
+		old := attrs
+		attrs = attrs2
+		checkInfo(w, k, v, skip)
+		attrs = old
+	})
 }
 
-func (e *C20) judgeFamilies(ctx *core.Ctx, kind string, fams []generator.FamilyGenerator, obj any, want map[string]float64, attrs map[string]string, checkInfo func(string, []string, []string, int)) {
+type c20Gen struct {
+	fam   *metric.Family
+	panic string
+}
+
+func (e *C20) generateAll(ctx *core.Ctx, fams []generator.FamilyGenerator, obj any) map[string]c20Gen {
+	out := map[string]c20Gen{}
+	for _, f := range fams {
+		func() {
+			g := c20Gen{}
+			defer func() {
+				if x := recover(); x != nil {
+					g.panic = fmt.Sprint(x)
+				}
+				out[f.Name] = g
+			}()
+			g.fam = f.GenerateFunc(obj)
+		}()
+	}
+	return out
+}
+
+func (e *C20) judgeFamilies(ctx *core.Ctx, kind string, fams []generator.FamilyGenerator, gen map[string]c20Gen, obj any, want map[string]float64, attrs map[string]string, checkInfo func(string, []string, []string, int)) {
 	byName := famByName(fams)
 	for name, w := range want {
-		f, ok := byName[name]
-		if !ok {
+		if _, ok := byName[name]; !ok {
 			ctx.Violation("C20", "C20.family-missing", map[string]string{"family": name}, nil)
 			continue
 		}
 		func() {
-			defer func() {
-				if x := recover(); x != nil {
-					ctx.Violation("C20", "C20.no-panic", map[string]string{"panic": fmt.Sprint(x), "family": name}, nil)
-				}
-			}()
-			fam := f.GenerateFunc(obj)
+			if gen[name].panic != "" {
+				ctx.Violation("C20", "C20.no-panic", map[string]string{"panic": gen[name].panic, "family": name}, nil)
+				return
+			}
+			fam := gen[name].fam
 			ctx.Count("C20.gauges-judged")
 			if fam == nil || len(fam.Metrics) != 1 {
 				ctx.Violation("C20", "C20.series-count", map[string]string{"family": name}, nil)
